@@ -630,7 +630,10 @@ def symbol_scenario(s, src, what, layout="default", rng=None):
             texts[f["id"]] = R.text_of(R.default_layout(f["toks"]))
         else:
             # line breaks, comments and multi-byte white space between ANY two tokens (also inside dotted names)
-            texts[f["id"]] = D.text_of(D.layout(f["toks"], rng, mode="mixed", unicode_ws=True))
+            pcs = D.layout(f["toks"], rng, mode="mixed", unicode_ws=True)
+            texts[f["id"]] = D.text_of(pcs)
+            ops.append({"op": "add", "i": 1, "id": f["id"], "text": texts[f["id"]], "pieces": pcs})
+            continue
         ops.append({"op": "add", "i": 1, "id": f["id"], "text": texts[f["id"]]})
     ops.append({"op": "validate", "i": 1})
     for f in s["files"]:
